@@ -49,6 +49,25 @@ def run(ctx):
     if zero_eval:
         results.append({"evaluations": zero_eval, "distinct_nontrivial": zero_eval, "failures": zero_fail, "errors": [],
                         "samples": [], "distribution": {"zero_step_time_axes": zero_eval}})
+    # missing written as None / NaN in a plain list or tuple (the form the property names): the predicate itself,
+    # evaluated on the flags the implementation returns for that carrier
+    import core
+    lst_fail, lst_eval = [], 0
+    for name, ad, cs, r in tied:
+        pool = [c for c in cs if any(v is None for k in ("xs", "rho", "z", "lon", "lat") for v in c.get(k, []))]
+        for c in cc.sample(pool, 60 if tier == "quick" else 600, rng):
+            tr, applied = cc.carrier_transform(rng.choice(["list_none", "list_nan", "tuple_none"]), None, None)
+            core.KW_TRANSFORM = tr
+            try:
+                canon, _ = ad.impl(c)
+            finally:
+                core.KW_TRANSFORM = None
+            if applied["n"]:
+                lst_eval += 1
+                lst_fail += cc.c02_failures(name, c, canon)
+    if lst_eval:
+        results.append({"evaluations": lst_eval, "distinct_nontrivial": lst_eval, "failures": lst_fail, "errors": [],
+                        "samples": [], "distribution": {"list_and_tuple_inputs_with_None_or_NaN": lst_eval}})
     # the same series as a 2-D array, in C and in Fortran memory order: a flag must stay on ITS element
     nd_fail, nd_eval = [], 0
     for name, ad, cs, r in tied:
